@@ -62,7 +62,7 @@ def gen_case(run_seed: int, tier: str, index: int = 0) -> dict:
                 # values used only as node inputs and defined nowhere in the graph (e.g. constants not yet registered)
                 "free_inputs": r.choice([0, 0, 1, 2]),
                 "params": dict(
-                    p_graphs=Streams(run_seed).rng("graphs-attr" + str(len(models))).choice([0.0, 0.0, 0.12, 0.25]), more_ops=Streams(run_seed).rng("more-ops").random() < 0.5, n_nodes=r.choice([1, 2, 4, 6, 10]), n_inputs=r.choice([0, 1, 2, 3]), n_inits=r.choice([0, 1, 2, 4]), n_outputs=r.choice([1, 2]),
+                    p_graphs=Streams(run_seed).rng("graphs-attr" + str(len(models))).choice([0.0, 0.0, 0.12, 0.25]), ref_graph_attrs=Streams(run_seed).rng("ref-graph-attrs" + str(len(models))).choice([0.0, 0.0, 0.6]), more_ops=Streams(run_seed).rng("more-ops").random() < 0.5, n_nodes=r.choice([1, 2, 4, 6, 10]), n_inputs=r.choice([0, 1, 2, 3]), n_inits=r.choice([0, 1, 2, 4]), n_outputs=r.choice([1, 2]),
                     n_functions=r.choice([0, 1, 2]), depth=r.choice([0, 1, 2]), typed=r.random() < 0.5, name_noise=r.choice([0.2, 0.4, 0.7, 1.0]), name_style=r.choice([0, 0, 1]),
                     unsorted=r.random() < 0.3, p_if=r.choice([0.1, 0.3]), init_as_input=r.choice([0.0, 0.3]),
                 ),
